@@ -200,8 +200,8 @@ pub fn run(ctx: &Ctx) {
     ctx.assume("error origin / message strings are not compared after re-evaluation (only error kinds)");
     let restricted = ctx.avoid("restricted-profiles");
     let (cases, len) = match ctx.tier {
-        Tier::Quick => (12000, 14),
-        Tier::Thorough => (300000, 40),
+        Tier::Quick => (40000, 14),
+        Tier::Thorough => (1000000, 40),
     };
     let enc = |c: &Case| serde_json::to_value(c).unwrap_or(Value::Null);
     if restricted {
